@@ -88,7 +88,7 @@ def _lattice_prio_case(seed):
         if fam2:
             text = ''.join(rng.choice(['a', ' a', 'a ', '  a']) for _ in range(rng.randint(1, 3)))
         n = len(text)
-        step = {i: {j for r in ign for j in range(i + 1, n + 1) if r.fullmatch(text, i, j)} for i in range(n + 1)}
+        step = {i: {max(js) for r in ign for js in [[j for j in range(i + 1, n + 1) if r.fullmatch(text, i, j)]] if js} for i in range(n + 1)}      # an ignored terminal is tried at its longest match only (the reading of the property recorded in DESIGN §10.1, as in earleylib.spec_lattice)
         skip = {}
         for i in range(n, -1, -1):
             acc = {i}
